@@ -286,6 +286,21 @@ func (w *world) step(a Action) (*fail, string) {
 			time.Sleep(time.Millisecond)
 		}
 		s.handedOver = true
+	case "reregister":
+		// the same underlying connection is registered again as a FRESH control-connection object (same conn
+		// id, same stream, no identity yet), as notifyTargetClientToOpenTunnel does for transports that are not
+		// registered as control connections: whatever the registry does with the old object, a lookup of the
+		// identity the OLD object had must not return anything that is not live and logged in as that client
+		s := pickCtl()
+		if s == nil || !s.handshook {
+			return nil, tag + ":skipped"
+		}
+		old := w.srv.SM.GetControlConnection(s.cl.ConnID)
+		if old == nil {
+			return nil, tag + ":skipped"
+		}
+		w.srv.SM.RegisterControlConnection(session.NewControlConnection(old.ConnID, old.Stream, old.RemoteAddr, old.Protocol))
+		s.authed, s.loginSeq, s.tunnelOnly = 0, 0, false
 	case "kick":
 		ci := a.Client % nClients
 		except := "none"
@@ -499,6 +514,27 @@ func runCase(t vkit.TB, c Case) {
 			interesting = true
 		}
 	}
+	// every other case ends with a server shutdown while connections are still up: afterwards no lookup by
+	// client id may return a connection (they are all closed), by either accessor
+	if len(c.Actions)%2 == 1 {
+		w.srv.SM.Close()
+		for ci := 0; ci < nClients; ci++ {
+			if cc := w.srv.SM.GetControlConnectionByClientID(w.ids[ci]); cc != nil {
+				vkit.Violation(t, "C07/lookup-returns-closed-connection/after-session-manager-shutdown", fmt.Sprintf("client %d -> %s after SessionManager.Close()", ci, cc.GetConnID()), c)
+				return
+			}
+			if ci2x := w.srv.SM.GetControlConnectionInterface(w.ids[ci]); ci2x != nil {
+				vkit.Violation(t, "C07/lookup-returns-closed-connection/after-session-manager-shutdown", fmt.Sprintf("client %d -> interface lookup not nil after SessionManager.Close()", ci), c)
+				return
+			}
+		}
+		if n := w.srv.SM.GetClientRegistry().Count(); n != 0 {
+			vkit.Violation(t, "C07/counts-do-not-return-to-zero/after-session-manager-shutdown", fmt.Sprintf("registry count %d", n), c)
+			return
+		}
+		vkit.Case("sequence+shutdown", interesting, fmt.Sprintf("%d/%d/%s", c.MaxControl, c.MaxConns, strings.Join(tags, ",")))
+		return
+	}
 	// close everything: counts must return to zero
 	for _, s := range w.live() {
 		s.cl.Near.Close()
@@ -524,7 +560,7 @@ func genCase(t *rapid.T) Case {
 	n := rapid.IntRange(2, vkit.Pick(22, 40)).Draw(t, "n")
 	c.Actions = append(c.Actions, Action{Kind: "accept"}, Action{Kind: "accept"})
 	for i := 0; i < n; i++ {
-		k := rapid.SampledFrom([]string{"accept", "accept", "login", "login", "login", "login", "login_tunnel", "login_tunnel", "tunnel_open", "tunnel_open", "login_bad", "login_bad", "phase1", "kick", "heartbeat", "sweep", "sweep_outage", "close_server", "close_peer", "close_server_outage", "close_peer_outage"}).Draw(t, "kind")
+		k := rapid.SampledFrom([]string{"accept", "accept", "login", "login", "login", "login", "login_tunnel", "login_tunnel", "tunnel_open", "tunnel_open", "login_bad", "login_bad", "phase1", "kick", "heartbeat", "sweep", "sweep_outage", "reregister", "close_server", "close_peer", "close_server_outage", "close_peer_outage"}).Draw(t, "kind")
 		a := Action{Kind: k, Conn: rapid.IntRange(0, 7).Draw(t, "conn"), Client: rapid.IntRange(0, nClients-1).Draw(t, "client")}
 		if k == "sweep" || k == "kick" || k == "sweep_outage" {
 			a.Mask = rapid.IntRange(0, 31).Draw(t, "mask")
